@@ -18,15 +18,28 @@ fn usage() -> ! {
     std::process::exit(2)
 }
 
+/// run one property's exploration; a panic that escapes it is a verdict when it was raised inside the crate under test (the
+/// check called something the property requires to work and it refused), and a machinery failure when the harness raised it
+fn guarded(ctx: &'static Ctx, f: impl FnOnce()) {
+    if let Err(msg) = util::catch(f) {
+        let site = util::panic_site(&msg).unwrap_or_default();
+        if site.starts_with("/repo/") || site.contains("/repo/src/") {
+            let prop = ctx.prop.clone();
+            ctx.violation(&format!("{}:unguarded-panic", prop.to_lowercase()), || format!("the crate panicked at {} ({}) inside a call this check makes on inputs the property covers; the exploration stopped there", site, msg), || serde_json::json!({"family":"unguarded-panic","site":site,"message":msg}));
+        } else {
+            eprintln!("machinery: the harness panicked at {}: {}", site, msg);
+            std::process::exit(2);
+        }
+    }
+}
+
 fn main() {
     let args: Vec<String> = std::env::args().collect();
     if args.len() < 3 {
         usage();
     }
     // every call into the crate runs under catch_unwind; keep the default hook quiet
-    if std::env::var("VCHECK_PANIC_TRACE").is_err() {
-        std::panic::set_hook(Box::new(|_| {}));
-    }
+    util::install_panic_hook(std::env::var("VCHECK_PANIC_TRACE").is_ok());
     if args[1] == "C18LEG" {
         let rows = props::c18::leg(args[2] == "thorough");
         println!("{}", serde_json::to_string(&rows).unwrap());
@@ -45,65 +58,65 @@ fn main() {
     let ctx: &'static Ctx = Box::leak(Box::new(Ctx::new(&args[1], tier)));
     let code = match args[1].as_str() {
         "C06" => {
-            props::c06::run(ctx);
+            guarded(ctx, || props::c06::run(ctx));
             ctx.finish(props::c06::RULE, props::c06::ASSUME)
         }
         "C07" => {
-            props::c07::run(ctx);
+            guarded(ctx, || props::c07::run(ctx));
             ctx.finish(props::c07::RULE, props::c07::ASSUME)
         }
         "C08" => {
-            props::c08::run(ctx);
+            guarded(ctx, || props::c08::run(ctx));
             ctx.finish(props::c08::RULE, props::c08::ASSUME)
         }
         "C09" => {
-            props::c09::run(ctx);
+            guarded(ctx, || props::c09::run(ctx));
             ctx.finish(props::c09::RULE, props::c09::ASSUME)
         }
         "C10" => {
-            props::c10::run(ctx);
+            guarded(ctx, || props::c10::run(ctx));
             ctx.finish(props::c10::RULE, props::c10::ASSUME)
         }
         "C11" => {
-            props::c11::run(ctx);
+            guarded(ctx, || props::c11::run(ctx));
             ctx.finish(props::c11::RULE, props::c11::ASSUME)
         }
         "C12" => {
-            props::c12::run(ctx);
+            guarded(ctx, || props::c12::run(ctx));
             ctx.finish(props::c12::RULE, props::c12::ASSUME)
         }
         "C13" => {
-            props::c13::run(ctx);
+            guarded(ctx, || props::c13::run(ctx));
             ctx.finish(props::c13::RULE, props::c13::ASSUME)
         }
         "C14" => {
-            props::c14::run(ctx);
+            guarded(ctx, || props::c14::run(ctx));
             ctx.finish(props::c14::RULE, props::c14::ASSUME)
         }
         "C15" => {
-            props::c15::run(ctx);
+            guarded(ctx, || props::c15::run(ctx));
             ctx.finish(props::c15::RULE, props::c15::ASSUME)
         }
         "C16" => {
-            props::c16::run(ctx);
+            guarded(ctx, || props::c16::run(ctx));
             ctx.finish(props::c16::RULE, props::c16::ASSUME)
         }
         "C18" => {
-            props::c18::run(ctx);
+            guarded(ctx, || props::c18::run(ctx));
             ctx.finish(props::c18::RULE, props::c18::ASSUME)
         }
         "C17" => {
-            props::c17::run(ctx);
+            guarded(ctx, || props::c17::run(ctx));
             ctx.finish(props::c17::RULE, props::c17::ASSUME)
         }
         "C04" => {
-            props::c04::run(ctx);
+            guarded(ctx, || props::c04::run(ctx));
             ctx.finish(props::c04::RULE, props::c04::ASSUME)
         }
         "C01" | "C02" | "C03" | "C05" => {
             use props::tseq::P;
             let p = match args[1].as_str() { "C01" => P::C01, "C02" => P::C02, "C03" => P::C03, _ => P::C05 };
-            props::tseq::run(ctx, p);
+            guarded(ctx, || props::tseq::run(ctx, p));
             ctx.finish(props::tseq::rule(p), props::tseq::ASSUME)
         }
         _ => {
